@@ -13,6 +13,7 @@ Row clauses for a yielded row R of node n called with (sigma, f), m := R (+) sig
   R4 filter        filt(n) and not f  ->  not lbl       filt(n) := truth_node(n) or the library's own position test
                    `n is n._conditions_root_ or isinstance(n._parent_, LogicalOperator)` evaluated when n is called
   R5 own value     is_value(n)  ->  nid(n) in dom R;   Binds(n) subset dom m  (ids every row must bind)
+  R6 self-contained  the row repeats every entry of sigma that lies in the node's own subtree
 Stream clauses
   NE non-empty     nid(n) in dom sigma and not lab(n)  ->  the stream has at least one row  (a bound value node passes
                    the binding on; used by `next(...)` in SetOf and the conclusions)
@@ -69,14 +70,16 @@ def pre_I(n, sig: Z.ZMap):
 def leaf_ext(n, a: Z.ZMap, others, b: Z.ZMap):
     """Lemma schema LeafExt (valid for the pointwise definition of good_row; checked in lemmas/leafext.py):
     a row `a` that is good for n stays good for n when it is consistently extended to `b` by entries that, inside
-    n's subtree, are only leaf (variable) entries, each taken from some row b_i that is good for a node n_i whose
-    subtree contains it (b extends b_i too)."""
+    n's subtree, are only leaf (variable) entries, each equal to the entry of some row b_i that is good for a node
+    n_i whose subtree contains it."""
     new_in_n = z3.Map(Z.AND_D, z3.Map(Z.AND_D, b.has, z3.Map(Z.NOT_D, a.has)), Z.SubIds(n))
     allowed = z3.K(Z.I, z3.BoolVal(False))
     for (ni, bi) in others:
+        covers = z3.Map(Z.AND_D, Z.SubIds(ni), bi.has)
+        # b agrees with b_i on the new ids that b_i covers
+        agrees = z3.Map(Z.ITE_HV, z3.Map(Z.AND_D, covers, new_in_n), bi.val, b.val) == b.val
         allowed = z3.Map(Z.OR_D, allowed,
-                         z3.If(z3.And(Z.good_row(ni, bi), b.extends(bi)), z3.Map(Z.AND_D, Z.SubIds(ni), bi.has),
-                               z3.K(Z.I, z3.BoolVal(False))))
+                         z3.If(z3.And(Z.good_row(ni, bi), agrees), covers, z3.K(Z.I, z3.BoolVal(False))))
     allowed = z3.Map(Z.AND_D, allowed, LeafIds)
     return z3.Implies(z3.And(Z.good_row(n, a), b.extends(a), z3.Map(Z.IMP_D, new_in_n, allowed) == TRUE_IDS),
                       Z.good_row(n, b))
@@ -120,6 +123,14 @@ def child_shape(n, c):
             Z.nid(c) != Z.nid(n), c != n, c != Z.NoneNode, n != Z.NoneNode, Z.node_of(Z.nid(n)) == n,
             Z.node_of(Z.nid(c)) == c,
             c != cond_root(c)]     # an operand of an operator / mapping is not the root of the conditions
+
+
+def subtree_is(n, children):
+    """SubIds(n) is exactly the node's own id plus the ids of its operands' subtrees"""
+    ids = z3.Store(z3.K(Z.I, z3.BoolVal(False)), Z.nid(n), z3.BoolVal(True))
+    for c in children:
+        ids = z3.Map(Z.OR_D, ids, Z.SubIds(c))
+    return Z.SubIds(n) == ids
 
 
 def tree_shape(a, b):
@@ -269,6 +280,7 @@ class EvalContract(LibModel):
                   z3.Implies(z3.And(filt_c, z3.Not(f)), z3.Not(lbl)),
                   z3.Implies(Z.is_value(c), R.contains(Z.nid(c))),
                   z3.Map(Z.IMP_D, Binds(c), m.has) == TRUE_IDS,
+                  z3.Map(Z.IMP_D, z3.Map(Z.AND_D, sig.has, Z.SubIds(c)), R.has) == TRUE_IDS,     # R6
                   # an entry under this node's own id can only have been put there by this node (rely@ obligations)
                   self.own(st.ghost['self'], m))
         st.qf.append(lambda rho, m=m, c=c, lbl=lbl: z3.Implies(z3.And(Z.ext(rho, m), lab(c), WD(c, rho)),
@@ -310,7 +322,7 @@ class EvalContract(LibModel):
                 break
         return mutated
 
-    def havoc_for_loop(self, eng, st: State, body, callee=None, extra_refs=(), sigma_of_callee=None) -> State:
+    def havoc_for_loop(self, eng, st: State, body, callee=None, extra_refs=(), sigma_of_callee=None, iterated=None) -> State:
         st = st.clone()
         # locals
         for nm in eng.written_names(body):
@@ -355,6 +367,9 @@ class EvalContract(LibModel):
                 else:
                     st.assume(self.dict_frame(st, oldc, newc, relied, who))
                     entries[ref] = (oldc, relied, who, owner)
+                if iterated is not None:
+                    # before the first iteration nothing has touched it
+                    st.assume(z3.Or(iterated, z3.And(newc.has == oldc.has, newc.val == oldc.val)))
                 st.dicts[ref] = newc
                 del extra_refs[ref]
         st.ghost['loop_entry'] = entries
@@ -641,8 +656,8 @@ class EvalContract(LibModel):
             inv0 = self.loop_invariant(eng, st, ordinal, z3.BoolVal(False))
             if inv0 is not None:
                 eng.oblige(st, f"inv@loop{ordinal}/init", inv0, line=node.lineno)
-            h = self.havoc_for_loop(eng, st, body, callee=c, extra_refs=mutated, sigma_of_callee=(sref, c))
             itd = z3.FreshConst(Z.B, f'iterated{ordinal}')
+            h = self.havoc_for_loop(eng, st, body, callee=c, extra_refs=mutated, sigma_of_callee=(sref, c), iterated=itd)
             hi = h.clone()
             invh = self.loop_invariant(eng, hi, ordinal, itd)
             if invh is not None:
@@ -876,6 +891,9 @@ class EvalContract(LibModel):
                        envs=[rho], line=node.lineno)
             eng.oblige(st, f"{tag}/R4-filter", z3.Implies(z3.And(st.ghost['filt_self'], z3.Not(f)), z3.Not(lbl)), line=node.lineno)
             eng.oblige(st, f"{tag}/R5-own-id", z3.Implies(Z.is_value(n), row.contains(Z.nid(n))), line=node.lineno)
+            if not self.r6_waived(eng, st, ordinal, node):
+                eng.oblige(st, f"{tag}/R6-self-contained",
+                           z3.Map(Z.IMP_D, z3.Map(Z.AND_D, sig.has, Z.SubIds(n)), row.has) == TRUE_IDS, line=node.lineno)
             eng.oblige(st, f"{tag}/R5-binds", z3.Map(Z.IMP_D, self.binds_ids(st, n), m.has) == TRUE_IDS, line=node.lineno)
             eng.oblige(st, f"cover@yield#{ordinal}", z3.BoolVal(True), kind='cover', line=node.lineno)
             self.extra_yield_obligations(eng, st, v, ordinal, node)
@@ -894,6 +912,9 @@ class EvalContract(LibModel):
 
     def extra_yield_obligations(self, eng, st, v, ordinal, node):
         pass
+
+    def r6_waived(self, eng, st, ordinal, node):
+        return False
 
     def binds_ids(self, st, n):
         return Binds(n)
